@@ -7,8 +7,9 @@
     packets the history has broadcast with an offset id, in emission order (ground truth,
     independent of the adapter's log); [last_persist pid h None] the session last persisted under
     [pid]; [selected s p] = shouldIncludePacket(session rooms, packet options).
-    Hypothesis about the id generator (yeast): ids along a history are distinct. *)
-From SioV Require Import Base.GoSem Adapter.Session Adapter.SessionProofs Adapter.SessionConc Adapter.SessionConcProofs Adapter.SessionSlice Adapter.SessionSliceProofs.
+    Hypothesis about the id generator (yeast): ids along a history are distinct - discharged for the
+    real generator at the end of this file (C08_offset_ids_distinct), given a clock that never steps back. *)
+From SioV Require Import Base.GoSem Adapter.Session Adapter.SessionProofs Adapter.SessionConc Adapter.SessionConcProofs Adapter.SessionSlice Adapter.SessionSliceProofs Adapter.Yeast Adapter.YeastProofs.
 Open Scope Z_scope.
 
 (** A successful restore returns exactly the selected packets emitted after the offset packet, in
@@ -288,3 +289,32 @@ Theorem C08_restore_alias_panic_refuted :
 Proof.
   exists [TFind; TClean 10; TFilter; TFilter; TFilter]. eexists. vm_compute. split; reflexivity.
 Qed.
+
+(** ---- the offset-id generator (Adapter/Yeast.v: github.com/karagenc/yeast as called by Broadcast)
+
+    [ids_of ts] = the ids handed out when the successive calls read the clock values [ts]
+    ([time.Now().Unix()]); [render] = the Go string.  Whatever the number of calls and however many
+    fall into one second: if the clock never steps back, the offset ids are pairwise distinct - the
+    hypothesis [NoDup (map p_id (emitted h))] of the theorems above ([small] = below 2^53, where Go's
+    float64 division in Encode is exact). *)
+Theorem C08_offset_ids_distinct : forall ts,
+  nondecreasing ts -> Forall small ts -> (N.of_nat (length ts) < 2 ^ 53)%N ->
+  NoDup (map render (ids_of ts)).
+Proof. exact ids_distinct. Qed.
+
+(** ... under any injective numbering of id strings (the models above number ids by [N]). *)
+Theorem C08_offset_ids_distinct_numbered : forall (num : list N -> N) ts,
+  (forall a b, num a = num b -> a = b) ->
+  nondecreasing ts -> Forall small ts -> (N.of_nat (length ts) < 2 ^ 53)%N ->
+  NoDup (map num (map render (ids_of ts))).
+Proof. exact ids_distinct_numbered. Qed.
+
+(** yeast.Decode inverts yeast.Encode. *)
+Theorem C08_offset_id_decode_encode : forall n, (n < 2 ^ 66)%N -> dec (enc n) = n.
+Proof. exact dec_enc. Qed.
+
+(** The clock hypothesis cannot be dropped: readings 5,5,4,5 repeat the id "5" (a wall clock stepped
+    back by NTP would make a later packet carry an earlier packet's offset). *)
+Theorem C08_offset_ids_backwards_clock_refuted :
+  exists ts, Forall small ts /\ ~ NoDup (map render (ids_of ts)).
+Proof. exact backwards_clock_repeats. Qed.
